@@ -29,7 +29,10 @@ type Config struct {
 	// checked by the engine first unless the Allow* flags are set).  It returns
 	// a violation key ("" = none), an explanation and a rendering of the final
 	// observation (for counting distinct outcomes).
-	Check         func(e vrt.Exec) (key, what, outcome string)
+	Check func(e vrt.Exec) (key, what, outcome string)
+	// More optionally returns further violations of the same execution (key -> explanation), for
+	// oracles that can find several independent findings in one execution (e.g. race pairs).
+	More          func(e vrt.Exec) map[string]string
 	AllowDeadlock bool
 	AllowLeftover bool // threads still blocked when main returns are not an error
 	// ByScenario shards whole scenarios over the workers (for checks made of many
@@ -120,6 +123,11 @@ func Explore(c *vlib.Ctx, cfg Config) {
 			if k == "" {
 				k, _, _ = cfg.Check(vrt.Exec{Choices: e.Choices, Res: r})
 			}
+			if k != key && cfg.More != nil {
+				if _, ok := cfg.More(vrt.Exec{Choices: e.Choices, Res: r})[key]; ok {
+					k = key
+				}
+			}
 			if k != key {
 				res.EngineErr = fmt.Sprintf("violation %q did not reproduce on replay (got %q): nondeterminism not owned by the engine", key, k)
 				return false, nil
@@ -163,6 +171,23 @@ func Explore(c *vlib.Ctx, cfg Config) {
 				ok, tr := confirm(e, key)
 				if ok {
 					res.Violations = append(res.Violations, violation{Key: key, What: what, Choices: e.Choices, Trace: trimTrace(tr)})
+				}
+			}
+			if cfg.More != nil && res.EngineErr == "" {
+				more := cfg.More(e)
+				var mk []string
+				for k := range more {
+					mk = append(mk, k)
+				}
+				sort.Strings(mk)
+				for _, k := range mk {
+					if seenKey[k] {
+						continue
+					}
+					seenKey[k] = true
+					if ok, tr := confirm(e, k); ok {
+						res.Violations = append(res.Violations, violation{Key: k, What: more[k], Choices: e.Choices, Trace: trimTrace(tr)})
+					}
 				}
 			}
 		})
